@@ -114,6 +114,53 @@ class Sched:
             return
 
 
+class CoopLock:
+    """stands in for threading.Lock / RLock objects that the watched module creates: a thread that has to wait for the lock
+    is 'blocked' for the scheduler (another thread is chosen; nobody enabled = deadlock) instead of blocking the harness"""
+    _n = [0]
+
+    def __init__(self, S, reentrant=False):
+        self.S, self.reentrant = S, reentrant
+        self.owner, self.depth = None, 0
+        CoopLock._n[0] += 1
+        self.name = f"lock{CoopLock._n[0]}"
+
+    def _me(self):
+        return "upd" if getattr(threading.current_thread(), "_verif_upd", False) else "main"
+
+    def acquire(self, blocking=True, timeout=-1):
+        S, me = self.S, self._me()
+        while True:
+            with S.cv:
+                if S.killed:
+                    raise Kill()
+                if self.owner is None or (self.reentrant and self.owner == me):
+                    self.owner, self.depth = me, self.depth + 1
+                    return True
+                if not blocking:
+                    return False
+                S.state[me] = "blocked_lock:" + self.name
+            S.point(me, ("lock wait", self.name))
+
+    def release(self):
+        S = self.S
+        with S.cv:
+            self.depth -= 1
+            if self.depth <= 0:
+                self.owner, self.depth = None, 0
+                for t, st in S.state.items():
+                    if st == "blocked_lock:" + self.name:
+                        S.state[t] = "run"
+
+    def locked(self):
+        return self.owner is not None
+
+    __enter__ = acquire
+
+    def __exit__(self, *a):
+        self.release()
+
+
 def run_one(choices, answer, net_ready, group, args):
     """one controlled execution; returns (Sched, click Result, uncaught thread exception or None)"""
     import requests
@@ -154,6 +201,17 @@ def run_one(choices, answer, net_ready, group, args):
     requests.get = fake_get
     old_hook = threading.excepthook
     threading.excepthook = lambda a: thread_exc.append(a.exc_type.__name__) if a.exc_type is not Kill else None
+    # locks that the watched module creates become cooperative ones (a real lock would block the harness itself)
+    real_lock, real_rlock = threading.Lock, threading.RLock
+
+    def lock_factory(reentrant):
+        def make(*a, **k):
+            caller = sys._getframe(1).f_code.co_filename
+            if caller.endswith(WATCH):
+                return CoopLock(S, reentrant)
+            return (real_rlock if reentrant else real_lock)(*a, **k)
+        return make
+    threading.Lock, threading.RLock = lock_factory(False), lock_factory(True)
     threading.settrace(tracer)
     sys.settrace(tracer)
     result = None
@@ -212,6 +270,7 @@ def run_one(choices, answer, net_ready, group, args):
         threading.settrace(None)
         requests.get = real_get
         threading.excepthook = old_hook
+        threading.Lock, threading.RLock = real_lock, real_rlock
         with S.cv:
             S.killed = True
             S.taken, S.points, S.keys, S.trace = list(S.taken), list(S.points), list(S.keys), list(S.trace)
